@@ -343,6 +343,10 @@ func (tr *Addition) Add(write func(w *Writer) error) error {
 	if wr.minUpdateIndex < tr.nextUpdateIndex {
 		return ErrLockFailure
 	}
+	if wr.maxUpdateIndex < wr.minUpdateIndex {
+		return fmt.Errorf("reftable: update index range [%d, %d] is empty",
+			wr.minUpdateIndex, wr.maxUpdateIndex)
+	}
 
 	if err := tr.stack.checkAddition(tab.Name(), tr.newReaders); err != nil {
 		return err
